@@ -1,4 +1,5 @@
 import Mathlib.Analysis.InnerProductSpace.Rayleigh
+import Mathlib.Analysis.InnerProductSpace.Adjoint
 /-!
 # C09 — the variational clause ("the energy is never below the lowest eigenvalue of H in that sector")
 
@@ -73,6 +74,50 @@ theorem eigenstate_energy (T : E →ₗ[𝕜] E) (ν : ℝ) (v : E) (hv : HasEig
     field_simp
   exact ⟨h, by rw [h, hTv, sub_self]⟩
 
+/-! ### the local step ("it does not increase from sweep to sweep when no truncation binds")
+
+With the environments fresh (`dmrg_reads_fresh`) and the other sites canonical (`dmrg_exit_gauge` and the sweep invariant),
+the map `V` from the local tensor (one site, or two merged sites) to the full state is a linear isometry and the operator
+`Heff1/Heff2` applies is `V† T V`.  The local ground state of that operator has an energy — in the FULL problem — that is
+not above the energy of any other local tensor, in particular of the tensor the solve was started from. -/
+
+section local_step
+variable {F : Type*} [NormedAddCommGroup F] [InnerProductSpace 𝕜 F] [FiniteDimensional 𝕜 F]
+
+/-- effective Hamiltonian of a local problem: `V† T V` for the isometry `V` embedding the local tensor space -/
+noncomputable def heff (V : F →ₗᵢ[𝕜] E) (T : E →ₗ[𝕜] E) : F →ₗ[𝕜] F :=
+  (LinearMap.adjoint V.toLinearMap) ∘ₗ T ∘ₗ V.toLinearMap
+
+/-- matrix elements of the effective Hamiltonian are matrix elements of `H` between the embedded states -/
+theorem heff_inner (V : F →ₗᵢ[𝕜] E) (T : E →ₗ[𝕜] E) (y z : F) :
+    inner 𝕜 (heff V T y) z = inner 𝕜 (T (V y)) (V z) := by
+  simp [heff, LinearMap.adjoint_inner_left]
+
+/-- the effective Hamiltonian of a Hermitian `H` is Hermitian (what `eigs(hermitian=True)` relies on) -/
+theorem heff_symmetric (V : F →ₗᵢ[𝕜] E) (T : E →ₗ[𝕜] E) (hT : T.IsSymmetric) : (heff V T).IsSymmetric := by
+  intro y z
+  rw [heff_inner, ← inner_conj_symm y (heff V T z), heff_inner, inner_conj_symm]
+  exact hT _ _
+
+/-- **`local_solve_nonincreasing`** (clause "does not increase from sweep to sweep when no truncation binds", one local
+step): the local problem has a lowest eigenpair `(μ, y₁)`; the energy of the embedded state `V y₁` in the full problem is
+`μ`, and it is ≤ the full-problem energy of `V y₀` for EVERY local tensor `y₀ ≠ 0` — in particular the current tensor, which
+is the start vector of the local solve.  (That `eigs` returns this eigenpair is the validated solver contract, C18.) -/
+theorem local_solve_nonincreasing [Nontrivial F] (V : F →ₗᵢ[𝕜] E) (T : E →ₗ[𝕜] E) (hT : T.IsSymmetric) :
+    ∃ (μ : ℝ) (y₁ : F), HasEigenvector (heff V T) (μ : 𝕜) y₁ ∧
+      RCLike.re (inner 𝕜 (T (V y₁)) (V y₁)) / ‖V y₁‖ ^ 2 = μ ∧
+      ∀ y₀ : F, y₀ ≠ 0 → μ ≤ RCLike.re (inner 𝕜 (T (V y₀)) (V y₀)) / ‖V y₀‖ ^ 2 := by
+  obtain ⟨μ, hμ, hle, -⟩ := energy_ge_lambda_min (heff V T) (heff_symmetric V T hT)
+  obtain ⟨y₁, hy₁⟩ := hμ.exists_hasEigenvector
+  refine ⟨μ, y₁, hy₁, ?_, ?_⟩
+  · have := (eigenstate_energy (heff V T) μ y₁ hy₁).1
+    rwa [heff_inner, ← V.norm_map y₁] at this
+  · intro y₀ h0
+    have := hle y₀ h0
+    rwa [heff_inner, ← V.norm_map y₀] at this
+
+end local_step
+
 /-! ### non-vacuity: the hypotheses are satisfiable on a concrete non-trivial sector -/
 
 /-- the identity on ℝ² (Euclidean) is symmetric; the sector is non-trivial and finite-dimensional -/
@@ -82,5 +127,12 @@ example : ∃ μ : ℝ, HasEigenvalue (LinearMap.id : EuclideanSpace ℝ (Fin 2)
   let ⟨μ, h, _⟩ := energy_ge_lambda_min (𝕜 := ℝ) (LinearMap.id : EuclideanSpace ℝ (Fin 2) →ₗ[ℝ] EuclideanSpace ℝ (Fin 2))
     (fun _ _ => rfl)
   ⟨μ, by simpa using h⟩
+
+/-- the identity embedding is a linear isometry: the local-step theorem applies (with `F = E`) -/
+example : ∃ (μ : ℝ) (y₁ : EuclideanSpace ℝ (Fin 2)),
+    HasEigenvector (heff (LinearIsometry.id) (LinearMap.id : EuclideanSpace ℝ (Fin 2) →ₗ[ℝ] EuclideanSpace ℝ (Fin 2))) (μ : ℝ) y₁ :=
+  let ⟨μ, y₁, h, _⟩ := local_solve_nonincreasing (𝕜 := ℝ) (LinearIsometry.id)
+    (LinearMap.id : EuclideanSpace ℝ (Fin 2) →ₗ[ℝ] EuclideanSpace ℝ (Fin 2)) (fun _ _ => rfl)
+  ⟨μ, y₁, h⟩
 
 end YProofs.C09Var
